@@ -333,7 +333,7 @@ func replayDecor(raw json.RawMessage) vdrv.Verdict {
 
 func runDecor(t *testing.T) {
 	H.Rule("decor", "rapid: one or two classes (plain, derived, or derived from the previous possibly-replaced class) from the class IR with legacy decorators on the class, methods, static methods, accessor pairs (on the first accessor), instance/static properties, method/constructor/setter parameters (0–3 decorators per position, 0–2 per parameter); decorator expressions are factory calls that log their evaluation, plain identifiers, member accesses and parenthesised expressions; decorators log their application (argument count, target kind through an own static tag, key, descriptor shape / parameter index) and optionally replace the method/accessor descriptor, mutate it, install an accessor for a property, replace the class by a subclass or tag it; parameter decorators return undefined or (rarely) a truthy value that TypeScript ignores; computed method names with side effects; parameter properties; methods that refer to the class by name (the binding a class decorator replaces); × experimentalDecorators:true × field semantics as in `fields` × esbuild target × minify. The JavaScript meaning is tsc's legacy-decorator scheme written by hand: class definition (static initialisers included) first, then __decorate([member decorators…, __param(i, d)…], C.prototype, key, null | void 0) for the instance members in source order, then the static members, then C = __decorate([class decorators…, __param(i, d) of the constructor…], C), with tslib's __decorate (right-to-left application, returned descriptor / class replaces) and __param (return value discarded). Oracle: V8 trace of esbuild's output == V8 trace of that JavaScript. Excluded by construction: emitDecoratorMetadata, decorators on both accessors of a pair, the class's own name inside static initialisers of a decorated class, property decorators that return a value, numeric keys on decorated members. non-trivial = ≥3 events of which ≥2 decorator applications")
-	H.SetupRapid("decor", H.N(1600, 100000))
+	H.SetupRapid("decor", H.N(1600, 40000))
 	rapid.Check(t, func(rt *rapid.T) {
 		c := genDecorCase(rt)
 		H.Report(rt, "decor", c.TS+c.tsconfigRaw()+c.EsTarget+c.Minify, c, judgeDecor(c))
